@@ -33,7 +33,7 @@ class HeapExporter:
         self.keep = []
         self.work = []
         self.kinds = {}
-        self.incoherent = []      # dicts holding two keys that are equal NOW (keys mutated after insertion)
+        self.incoherent = []      # dict keys mutated after insertion: equal to another key NOW, or under a stale hash
 
     def val(self, o):
         if o is None or o is True or o is False:
@@ -119,7 +119,11 @@ class HeapExporter:
             fresh = {}
             for k in d:
                 if k in fresh:
-                    self.incoherent.append({"size": len(d), "key_class": type(k).__name__, "key": str(k)[:40]})
+                    self.incoherent.append({"size": len(d), "key_class": type(k).__name__, "key": str(k)[:40],
+                                            "what": "equal to an earlier key"})
+                elif k not in d:
+                    self.incoherent.append({"size": len(d), "key_class": type(k).__name__, "key": str(k)[:40],
+                                            "what": "stored under a stale hash (look-up of the key fails)"})
                 fresh[k] = 1
         except Exception as e:  # noqa: BLE001  an unhashable key now: also incoherent
             self.incoherent.append({"size": len(d), "error": type(e).__name__})
